@@ -5,7 +5,7 @@
 From Coq Require Import List NArith Lia Bool.
 From Coq Require Import ZifyBool ZifyN ZifyNat.
 From Minimq Require Import Bytes Varint Utf8 Props Ser De Reader Arena Core Show Machine Parse Run.
-From Minimq Require Import Util VarintProofs CodecProofs ArenaLemmas ArenaOps Inv WireInv Chunking ReaderInv Cancel ConnectOk BrokerProofs Framing FillWhole PollReads.
+From Minimq Require Import Util VarintProofs CodecProofs ArenaLemmas ArenaOps Inv WireInv Chunking ReaderInv Cancel ConnectOk BrokerProofs Framing FillWhole PollReads PacketShape KeepAlive Wire.
 Import ListNotations.
 Open Scope N_scope.
 
@@ -175,3 +175,94 @@ Example puback_example :
   ob_ret (s_ob (w_sess (fst (op_poll FUEL ex_inflight)))) = [] /\
   rt_quota (s_rt (w_sess (fst (op_poll FUEL ex_inflight)))) = 8.
 Proof. vm_compute. repeat split; reflexivity. Qed.
+
+(* ---------- the general form: poll() hands the arrived packet to the session ---------- *)
+Lemma handle_packet_pt_none : forall s p, rt_ping_timeout (s_rt s) = None ->
+  rt_ping_timeout (s_rt (fst (handle_packet s p))) = None.
+Proof.
+  intros s p H.
+  assert (Hq : forall s0 a d, s_rt (fst (queue_ctl_checked s0 a d)) = s_rt s0).
+  { intros. unfold queue_ctl_checked. destruct (check_control_size _ _); [reflexivity|]. destruct (queue_control _ _); reflexivity. }
+  destruct p as [sp rc props|tp pid q rt dup props pl|pid rc|pid rc|pid rc|pid rc|pid props codes|pid props codes|rc props| ];
+    cbn [handle_packet]; try exact H.
+  - destruct q; [exact H| |]; (destruct pid as [id|]; [|exact H]).
+    + now rewrite Hq.
+    + q2_split; now rewrite Hq.
+  - destruct (ack_packet _ _) as [o f]. destruct (negb f); [exact H|]. destruct (rc_success rc); exact H.
+  - destruct (ack_packet _ _) as [o f]. destruct f.
+    + destruct (negb (rc_success rc)); [exact H|]. cbn [set_ob s_rt].
+      destruct (check_pubrel_size _ _ _); [exact H|]. destruct (queue_release _ _ _); exact H.
+    + destruct (has_pending_release _ _); [destruct (rc_success rc)|]; exact H.
+  - destruct (swap_remove_id pid (s_srv s)) as [l|]; now rewrite Hq.
+  - destruct (ack_release _ _) as [o f]. destruct (negb f); [exact H|]. destruct (rc_success rc); exact H.
+  - destruct (ack_packet _ _) as [o f]. destruct (negb f); [exact H|]. destruct (all_success codes); exact H.
+  - destruct (ack_packet _ _) as [o f]. destruct (negb f); [exact H|]. destruct (all_success codes); exact H.
+  - reflexivity.
+Qed.
+
+Theorem poll_handles_arrived : forall w h rl body t p s4 d,
+  varint_write (lenN body) = Some rl ->
+  let pkt := h :: rl ++ body in
+  lenN pkt <= rcap (rd w) -> lenN pkt <= 29000 ->
+  w_live w = true -> rdata (rd w) = [] -> rplen (rd w) = None ->
+  next_step (s_ob (w_sess w)) = None ->
+  (forall dd, rt_next_ping (s_rt (w_sess w)) = Some dd -> w_now w < dd) -> rt_ping_timeout (s_rt (w_sess w)) = None ->
+  w_script w = [] -> w_inq w = [(t, pkt)] -> t <= w_now w ->
+  from_buffer pkt = Some p ->
+  handle_packet (set_reader (w_sess w) (reader_reset (rd w))) p = (s4, HOk d) ->
+  (d = false -> next_step (s_ob s4) = None) ->
+  exists w', op_poll FUEL w = (w', ODone (if d then Some p else None)) /\
+    w_sess w' = s4 /\ w_live w' = true /\ w_inq w' = [] /\ w_now w' = w_now w.
+Proof.
+  intros w h rl body t p s4 d Hrl pkt Hcap H29 Hl Hd Hpl Hn Hnp Hpt Hs Hi Ht Hdec Hh Hdr.
+  destruct FUEL_big as [f Hf]. assert (Hfu : N.of_nat FUEL = 30000) by reflexivity.
+  unfold op_poll. rewrite Hf.
+  destruct (wait_reads_arrived_packet (S (S (S (S f)))) w h rl body t Hrl) as [w3 [E3 [D3 [P3 [K3 [S3 [Q3 [C3 [N3 L3]]]]]]]]];
+    try assumption; fold pkt; try (unfold BIG; lia); try (rewrite Hf in Hfu; lia).
+  fold pkt in D3, P3. rewrite E3. clear E3.
+  rewrite wait_unfold. unfold drive_packet. rewrite L3. cbn [negb]. rewrite drive_loop_unfold.
+  assert (Ha3 : packet_available (rd w3) = true).
+  { unfold packet_available. rewrite P3. unfold read_bytes. rewrite D3. apply N.leb_le. lia. }
+  unfold process_received at 1. fold (rd w3). rewrite Ha3. cbn [negb]. unfold take_packet. rewrite P3, D3.
+  rewrite (takeN_all pkt (lenN pkt)) by lia. rewrite Hdec.
+  assert (Es3 : set_reader (w_sess w3) (reader_reset (rd w3)) = set_reader (w_sess w) (reader_reset (rd w))).
+  { rewrite S3. unfold reader_reset. rewrite K3. destruct (w_sess w); reflexivity. }
+  rewrite Es3, Hh.
+  destruct d.
+  - (* a message for the application *)
+    eexists. split; [reflexivity|]. cbn [w_sess w_live w_inq w_now upd_drained upd_envok upd_sess]. repeat split; assumption.
+  - specialize (Hdr eq_refl).
+    match goal with |- context [drive_loop ?fu true ?x] => set (w4 := x) end.
+    assert (S4 : w_sess w4 = s4) by reflexivity.
+    assert (L4 : w_live w4 = true) by (unfold w4; cbn [w_live upd_drained upd_envok upd_sess]; exact L3).
+    assert (N4 : w_now w4 = w_now w) by (unfold w4; cbn [w_now upd_drained upd_envok upd_sess]; exact N3).
+    pose proof (handle_packet_reader (set_reader (w_sess w) (reader_reset (rd w))) p) as Hr4. rewrite Hh in Hr4. cbn [fst set_reader s_reader] in Hr4.
+    pose proof (handle_packet_pt_none (set_reader (w_sess w) (reader_reset (rd w))) p Hpt) as Pt4. rewrite Hh in Pt4. cbn [fst] in Pt4.
+    pose proof (KeepAlive.tframe_handle_packet (set_reader (w_sess w) (reader_reset (rd w))) p) as [_ Np4]. rewrite Hh in Np4. cbn [fst set_reader s_rt] in Np4.
+    rewrite drive_loop_unfold. unfold process_received. rewrite S4.
+    assert (Na4 : packet_available (s_reader s4) = false) by (rewrite Hr4; reflexivity). rewrite Na4. cbn [negb].
+    unfold service, ping_timed_out. rewrite S4, Pt4. unfold maybe_queue_pingreq, should_queue_pingreq. rewrite Pt4, Np4, N4.
+    assert (Hdue : match rt_next_ping (s_rt (w_sess w)) with Some dd => dd <=? w_now w | None => false end = false).
+    { destruct (rt_next_ping (s_rt (w_sess w))) as [dd|] eqn:En; [|reflexivity]. specialize (Hnp dd eq_refl). apply N.leb_gt. exact Hnp. }
+    rewrite Hdue. cbn [andb]. rewrite <- S4, upd_sess_same, S4, Hdr. cbn [orb]. rewrite S4, Hdr.
+    eexists. split; [reflexivity|]. split; [exact S4|]. split; [exact L4|]. split; [|exact N4].
+    unfold w4. cbn [w_inq upd_drained upd_envok upd_sess]. exact Q3.
+Qed.
+
+(* an inbound QoS 0 PUBLISH that has arrived is delivered by one poll(), exactly as decoded *)
+Corollary poll_delivers_qos0 : forall w h rl body t topic r dp props payload,
+  varint_write (lenN body) = Some rl ->
+  let pkt := h :: rl ++ body in
+  lenN pkt <= rcap (rd w) -> lenN pkt <= 29000 ->
+  w_live w = true -> rdata (rd w) = [] -> rplen (rd w) = None ->
+  next_step (s_ob (w_sess w)) = None ->
+  (forall dd, rt_next_ping (s_rt (w_sess w)) = Some dd -> w_now w < dd) -> rt_ping_timeout (s_rt (w_sess w)) = None ->
+  w_script w = [] -> w_inq w = [(t, pkt)] -> t <= w_now w ->
+  from_buffer pkt = Some (RPublish topic None Q0 r dp props payload) ->
+  exists w', op_poll FUEL w = (w', ODone (Some (RPublish topic None Q0 r dp props payload))) /\ w_live w' = true.
+Proof.
+  intros w h rl body t topic r dp props payload Hrl pkt Hcap H29 Hl Hd Hpl Hn Hnp Hpt Hs Hi Ht Hdec.
+  destruct (poll_handles_arrived w h rl body t _ _ true Hrl Hcap H29 Hl Hd Hpl Hn Hnp Hpt Hs Hi Ht Hdec eq_refl ltac:(discriminate))
+    as [w' [E [_ [L _]]]].
+  exists w'. split; [exact E|exact L].
+Qed.
